@@ -45,6 +45,20 @@ CHECKS.update({
          "All ordered pairs over ~110 accepted texts (every final-token form, with/without direction, ellipses with/without numbers, printed templates that reuse the same variable names) x 7 separators, every accepted token soup x 5 context texts in both orders, and triples over a subset: the concatenation must be accepted and return exactly the messages of the parts (deep equality incl. Variables, so ellipsis renumbering is observed) and their warnings shifted by the join offset.",
          "", "5/C19"),
 })
+CHECKS.update({
+ "C09": ("bounded-exhaustive exploration of fill histories (assignments x ordered splits) on the real FillVariables vs. substitution model (R-fill)",
+         "Every ellipsis-free template tree of the scope (all node kinds, every non-empty subset of 3 positions as variables, four ASCII bound forms, list variables; 4.8e3 templates quick, 3e5 thorough) x every assignment drawn from {unassigned, two in-domain values of different Go types, one out-of-domain value} per variable plus unknown keys x every ordered partition of the assignment into up to 3 successive fills (3.1e6 fill sequences quick); messages additionally under all 24 orders of two partial fills, SetWaitBit and SetSessionIDAndSystemBytes. Oracle: textbook substitution on the reference template and direct construction through the factories (String, Variables, Size, ToBytes), refusal iff some value is out of domain, multi-step == one-step.",
+         "Fill-in values are variable-free (as the property's quantifier states); Go map iteration order is not controllable.", "5/C09"),
+ "C10": ("bounded-exhaustive exploration of list templates x repeat-count assignments (and second-stage fills) on the real expander vs. reference expander (R-ell)",
+         "All list templates with depth <= 3, width <= 4 and up to 6 (7) nodes over 8 atoms, an ellipsis at any position >= 1 of any list (5e4 templates quick) x the complete product of {unfilled,0,1,2,3} per ellipsis; then each generated variable name is filled on its own and each remaining ellipsis is filled in a second call (non-initial states); nested chains to depth 4; ellipses and values in one call; suffixed-name family; invalid counts. Oracle: a 40-line recursive reference expander with an explicit suffix argument; String, Variables (uniqueness, renumbering in order of appearance) and Size compared.",
+         "A single remaining ellipsis may be called ... or ...[0]; negative/non-int counts must be refused or ignored, never half-expanded.", "5/C10"),
+ "C12": ("bounded-exhaustive argument sweep of every factory and of FillVariables vs. math/big arithmetic",
+         "Every accepted Go argument type (int, int8..int64, uint..uint64, float32, float64, plus bool/nil/[]byte) x boundary values around every range boundary x 11 numeric formats x 3 positions x {factory, FillVariables}; all 65536 int16 and uint16 values into I1/U1/B; every 0b-string over a 6-symbol alphabet up to length 4 and long forms; float alphabet with NaN/Inf/above-max/half-ulp; 64-bit integers that are sensitive to double rounding in F4; every byte in ASCII strings; the complete product of message-constructor arguments (stream, function, wait bit, session, direction) through NewDataMessage, NewHSMSDataMessage, SetSessionIDAndSystemBytes and SetWaitBit; every variable name up to length 4 over an 8-symbol alphabet in 7 node kinds; duplicate and ellipsis placements. In range => stored exactly (String and ToBytes), out of range => panic.",
+         "An in-range value that is refused is counted, not judged (the statement allows 'stores exactly or refuses').", "5/C12"),
+ "C16": ("bounded-exhaustive exploration of template trees x 4 construction routes with a three-observer agreement oracle",
+         "Every template tree of the scope (1.4e6 cases quick) as built by the factories, as produced by a partial fill, as produced by an ellipsis expansion and as produced by the SML parser: variable names read back from String() by an independent tokenizer of the printed form must equal Variables() in order, be distinct, ToBytes() must be non-empty iff there are no variables, Size() must equal the printed element count (-1 for an ASCII variable); each observer is repeated 8 (32) times to expose map-order dependence; all compared with the reference template as well.",
+         "Go map iteration order is not controllable (repetition instead).", "5/C16"),
+})
 NA = {}
 hooks_commits = subprocess.run(["git", "-C", "/repo", "log", "--format=%H", "--grep=^verif hook"], capture_output=True, text=True).stdout.split()
 m = {
